@@ -260,14 +260,14 @@ REPLTRUST = [KERNEL, EXTRACT, CORR, PCLUSTER,
              "the coordinator is represented by its decision functions (answers needed, candidate filter, highest head) tied by facts; its metadata store and its own crashes are not modelled"]
 
 PROPS["C03"] = {
-    "modules": ["OxiaVerif.Props.C03"],
+    "modules": ["OxiaVerif.Props.C03", "OxiaVerif.Props.ReplSafety"],
     "facts": ["truncateComparesWithFollowerTermEntry", "cursorStartsAtTruncatedHead", "followerTruncateOnlyWhenFenced", "followerAppendChecksTermAlways",
               "lateRequestCannotConvertLeader", "snapshotChunkTermMustEqual", "walReaderServesOnlySyncedEntries", "walSyncCallbacksOnlyForFlushedEntries"],
     "trusted_base": REPLTRUST,
     "assumptions": ["C03_attach_compatible_partial assumes that the entry getHighestEntryOfTerm finds is of the follower's head term or does not exist (the remaining case is refuted: known finding D-44), and the log-matching property in the form 'every log is cut from one log per term' (Conforms) and the follower's true head (C04); that this is an invariant of all runs is not proved (it is what the differential runs and the oracle check), and known finding D-40 is a history in which two leaders hold different committed entries",
                     "acknowledgement after WAL sync is tied by the facts about the reader bound and runSync, durability itself is the WAL's (C09/C10)"],
     "rule": PRULE + " Oracle: every follower that acknowledged offset o to the leader of its term holds the leader's entry at every offset up to o; two nodes that lead hold the same entries up to the smaller commit offset; the commit offset is within the log.",
-    "level_text": "Machine-checked proof (Lean 4) on M-Repl: for every leader log, starting offset and number of (re-)deliveries, the follower's append loop started on a log compatible with the leader's keeps it compatible, only extends it, never moves the acknowledged offset back and leaves everything at or below it equal to the leader's entries (C03_stream_keeps_acked_prefix_equal, induction over the deliveries; duplicates are acknowledged without a look at the entry, which is why compatibility is needed: proved counterexample); a follower of another term takes nothing; PARTIAL for the attach step: the decision of truncateFollowerIfNeeded as found in the tree yields a compatible log and a cursor position up to which the logs are equal when the leader's last entry at or below the follower's head term is of that very term, or there is none (same term, older term below / beyond the leader's last entry of that term), from the log-matching property (C03_attach_compatible_partial); in the remaining case (the leader holds no entry of the follower's head term but entries of lower terms further up) the statement is false of model and code: kernel-checked witnesses C03_truncation_keeps_foreign_entries and C03_follower_diverges_below_acknowledged_offset, replayed on the implementation (known finding D-44); proved counterexample for the seeded comparison. Tied to the code by eight facts and by differential runs.",
+    "level_text": "Machine-checked proof (Lean 4) on M-Repl: for every leader log, starting offset and number of (re-)deliveries, the follower's append loop started on a log compatible with the leader's keeps it compatible, only extends it, never moves the acknowledged offset back and leaves everything at or below it equal to the leader's entries (C03_stream_keeps_acked_prefix_equal, induction over the deliveries; duplicates are acknowledged without a look at the entry, which is why compatibility is needed: proved counterexample); a follower of another term takes nothing; PARTIAL for the attach step: the decision of truncateFollowerIfNeeded as found in the tree yields a compatible log and a cursor position up to which the logs are equal when the leader's last entry at or below the follower's head term is of that very term, or there is none (same term, older term below / beyond the leader's last entry of that term), from the log-matching property (C03_attach_compatible_partial); in the remaining case (the leader holds no entry of the follower's head term but entries of lower terms further up) the statement is false of model and code: kernel-checked witnesses C03_truncation_keeps_foreign_entries and C03_follower_diverges_below_acknowledged_offset, replayed on the implementation (known finding D-44); proved counterexample for the seeded comparison. On A-Repl (the protocol as atomic steps, which excludes the D-44 case; DESIGN.md 10.7) log matching and 'an attached follower holds a prefix of its leader's log' are invariants of every reachable state (log_matching, follower_holds_prefix, by the inductive invariant of ReplSafety). Tied to the code by eight facts, by differential runs, and by the run-time explanation of every script in A-Repl steps.",
     "level_note": "Trusted: Lean kernel; extractor rules; protocol harness. Assumed: log matching as an invariant (checked by the oracle on every settled state, not proved). Known findings D-40b (committed offset holds different entries on two successive leaders) and D-44 (truncation by the offset of a lower-term entry leaves foreign entries below an acknowledged offset).",
     "technique": "Lean 4 proof (stream induction, case analysis of the attach decision) + regenerated facts + differential correspondence on real controllers",
     "design_ref": "DESIGN.md section 6 C03",
@@ -287,14 +287,14 @@ PROPS["C04"] = {
 }
 
 PROPS["C05"] = {
-    "modules": ["OxiaVerif.Props.C05"],
+    "modules": ["OxiaVerif.Props.C05", "OxiaVerif.Props.ReplSafety"],
     "facts": ["coordinatorPersistsTermBeforeNewTerm", "newTermQuorumMajorityOverEnsembleAndRemoved", "selectNewLeaderTakesMaxTermThenOffset", "newTermRejectsLowerAndPersistsFirst",
               "updateTermFlushes", "becomeLeaderOnlyFromFencedSameTerm", "lateRequestCannotConvertLeader", "snapshotChunkTermMustEqual"],
     "trusted_base": REPLTRUST + ["durability of the term across restarts: fact 'written and flushed before adopted' plus restarts in the scripts; crashes at arbitrary file-system operations are not simulated here"],
     "assumptions": ["one BecomeLeader per term (the coordinator's discipline; a second BecomeLeader of the same term to another fenced node would be accepted)",
                     "a crash in the middle of a snapshot installation is not covered (observation D-39 in DESIGN.md)"],
     "rule": PRULE + " Oracle: a node's term never goes back (also across restarts), at most one node leads a term, an election succeeds only with answers from a majority, the installed leader answered the election.",
-    "level_text": "Machine-checked proof (Lean 4) on M-Repl: the coordinator's choice is one of the candidates and no candidate has a higher head entry, term first, then offset (C05_best_log_wins, by a fold invariant with the order laws of 'better'); BecomeLeader succeeds only on a node fenced in that very term; NewTerm never lowers the term of any node whatever its outcome, and streams / truncations leave terms alone; proved model history for the node-swap election (the removed node counts for the majority but is no candidate). That the term is made durable before it is used (coordinator: metadata store before NewTerm; node: written and flushed before adopted) is tied by facts. Differential runs on real controllers with restarts.",
+    "level_text": "Machine-checked proof (Lean 4) on M-Repl: the coordinator's choice is one of the candidates and no candidate has a higher head entry, term first, then offset (C05_best_log_wins, by a fold invariant with the order laws of 'better'); BecomeLeader succeeds only on a node fenced in that very term; NewTerm never lowers the term of any node whatever its outcome, and streams / truncations leave terms alone; proved model history for the node-swap election (the removed node counts for the majority but is no candidate). On A-Repl (DESIGN.md 10.7) at most one node leads a term in every reachable state and its log is that term's log (one_leader_per_term, from the inductive invariant of ReplSafety). That the term is made durable before it is used (coordinator: metadata store before NewTerm; node: written and flushed before adopted) is tied by facts. Differential runs on real controllers with restarts.",
     "level_note": "Trusted: Lean kernel; extractor rules (electLeader step order, newTermQuorum, selectNewLeader, NewTerm, UpdateTerm, BecomeLeader); protocol harness. Observation D-39 (term lost by a crash during snapshot install) documented, not claimed.",
     "technique": "Lean 4 proof (fold invariant for the selection, per-RPC monotonicity) + regenerated facts + differential correspondence",
     "design_ref": "DESIGN.md section 6 C05",
@@ -308,7 +308,7 @@ PROPS["C01"] = {
     "trusted_base": REPLTRUST,
     "assumptions": ["fixed ensemble: membership changes are outside A-Repl (known finding D-41 is about them)",
                     "the attach step is not enabled in the case of known finding D-44 (the leader's last entry at or below the follower's head term is of a lower term): histories through that case are outside the theorem, and the implementation diverges there at the log level (C03)",
-                    "A-Repl's steps are atomic and logs are durable when appended (WAL: C09/C10; acknowledgement after sync: facts); the steps' decisions are M-Repl's functions (plan, highestOfTerm, better), which are tied to the code by facts and differential runs; that every behaviour of the implementation is a sequence of A-Repl steps is argued in DESIGN.md section 10.8, not proved",
+                    "A-Repl's steps are atomic and logs are durable when appended (WAL: C09/C10; acknowledgement after sync: facts); the steps' decisions are M-Repl's functions (plan, highestOfTerm, better), which are tied to the code by facts and differential runs; that every behaviour of the implementation is a sequence of A-Repl steps is argued in DESIGN.md section 10.7: checked at run time on every script (every M-Repl transition is explained by enabled A-Repl steps), not proved",
                     "disks are kept (C09/C10 for the WAL, C07 for the database); at most a minority is cut off at a time in generated scripts"],
     "rule": PRULE + " Added: elections over an ensemble with a node being removed (swap) while the leader is away. Oracle: every write acknowledged to the client is in the committed log of, and visible on, the leader of the newest term in every later settled state.",
     "level_text": "Machine-checked proof (Lean 4): LEADER COMPLETENESS for acknowledged writes on A-Repl, the protocol as a transition system of atomic steps (newElection, fence, becomeLeader with a fenced majority and the best head, attach with the truncation decision of the code, append, write, restart) for any number of nodes with a fixed ensemble: in every reachable state, an entry that the leader of term t wrote in its own term and that a majority has acknowledged in term t (acknowledgements are history: they may arrive after the follower moved on) is at its offset in the log of every leader of every later term (leader_completeness), and stays there in every state reachable afterwards (acknowledged_write_survives); also log matching, one leader per term, attached followers hold a prefix of their leader's log. Proof by a 16-part inductive invariant over the history state (inv_step, about 1,000 lines), with the election step from C05's selection rule and C03's attach theorem; non-vacuity by kernel-evaluated runs (demo_run_meets_hypotheses) and the boundary by d44_attach_not_enabled. On M-Repl: a write is acknowledged only at or below the leader's quorum commit offset (C01_ack_only_after_commit). PARTIAL with respect to the property's quantifier: membership changes (node swap) are outside A-Repl - proved model history that loses acknowledged writes there (known finding D-41), reproduced on real node controllers - and so are histories through the D-44 attach case. Tied to the code by eleven facts and by differential runs with partitions, restarts and elections.",
